@@ -90,6 +90,14 @@ def ic_kwargs(entry, style, G, rng, rho=None):
         return {}, dict(style=style, rho=1.0 / N)
     k = rng.randint(1, max(1, min(3, N - 1)))
     infs = rng.sample(nodes, k)
+    # often: a whole degree class is infected (that class then has no susceptible node at tmin — the 0/0 corner of the
+    # degree-stratified models)
+    byk = {}
+    for u in nodes:
+        byk.setdefault(G.degree(u), []).append(u)
+    small = [c for c in byk.values() if len(c) <= 3 and len(c) < N]
+    if small and rng.random() < 0.4:
+        infs = list(rng.choice(small))
     desc = dict(style=style, infs=infs, recs=[])
     kw = dict(initial_infecteds=infs)
     if style == "setsrec":
